@@ -166,6 +166,12 @@ func (b *assignmentBuilder) structFieldAndStructGettersAndFields(
 
 	logger.Printf("%v: lookup assignment for %v = %v.*", methodPosStr, lhsExpr, rhsStruct.AssignExpr())
 
+	if util.IsPtr(lhs.ExprType()) && util.IsStructType(util.DerefPtr(lhs.ExprType())) && b.hasNotationUnder(lhs) {
+		// A struct held by pointer is assigned as a whole, never member by member.
+		return nil, logger.Errorf("%v: notations on members of %v cannot be honoured: it is a pointer, which is copied as it is",
+			methodPosStr, lhsExpr)
+	}
+
 	var a gmodel.Assignment
 	var err error
 	// To prevent logging "no assignment for d.NestedData"…
